@@ -7,6 +7,8 @@ LEAF = {
     'c': 'c', 'two': '2', 'three': '3', 'half': '0.5', 'hpar': 'h', 'hx': 'Dx(h,0)', 'gw': 'gw',
     'f': 'f', 'f2': 'f2', 'cD': 'c', 'twoD': '2',
     'gu': 'grad(u)', 'gv': 'grad(v)', 'gup': 'grad(u,parametric=True)', 'gh': 'grad(h)', 'g': 'g', 'x': 'x',
+    'uvec': 'u', 'vvec': 'v', 'u0': 'u[0]', 'u1': 'u[1]', 'w0': 'v[0]', 'w1': 'v[1]', 'divu': 'div(u)', 'divv': 'div(v)',
+    'Gu': 'grad(u)', 'Gv': 'grad(v)',
     'Ainv': 'inv(A)', 'Jinv': 'inv(jac)', 'Hu': 'hess(u)', 'Hv': 'hess(v)', 'A': 'A', 'J': 'jac', 'Gg': 'grad(g)',
 }
 UNARY = {
